@@ -836,6 +836,24 @@ class Engine:
                 if nm in ("for_each", "try_for_each") and len(args) == 2 and self._closure_is_local(st, args[1]):
                     yield from self.fused_consumer(nm, frame, st, args, depth, site)
                     return
+                elif nm in ("any", "all") and len(args) == 2 and self._closure_is_local(st, args[1]):
+                    # `it.any(p)`: an opaque boolean that names the predicate applied to one (symbolic) element, so that rules can
+                    # recognise "some element satisfies p" whatever the loop style
+                    sa = st.fork()
+                    self.in_discovery.add(("fused-any", site))
+                    try:
+                        outs = []
+                        for s1, e in self.iter_elements(sa, args[0], depth, site):
+                            if e is ITER_END or e is ITER_SKIP:
+                                continue
+                            for s2, r in call_closure(self, s1, args[1], [e], depth, site):
+                                if r is not PANIC:
+                                    outs.append(r)
+                    finally:
+                        self.in_discovery.discard(("fused-any", site))
+                    if len(outs) == 1:
+                        yield st, ("call", "fused:" + nm, (self.pipeline_of(st, args[0]), outs[0]), None)
+                        return
                 elif nm == "fold" and len(args) == 3 and self._closure_is_local(st, args[2]):
                     # `it.fold(init, |acc, x| ..)`: one loop-body row per closure path with an unknown accumulator; the result is an
                     # unknown value of the accumulator
